@@ -45,6 +45,19 @@ const (
 )
 
 func (f *FIXUTCTimestamp) Read(bytes []byte) (err error) {
+	// time.Parse also takes a comma as the fraction separator and a sign inside the fraction;
+	// FIX only allows a period followed by digits.
+	if len(bytes) > 17 {
+		if bytes[17] != '.' {
+			return errors.New("Invalid Value for Timestamp: " + string(bytes))
+		}
+		for _, b := range bytes[18:] {
+			if !isDecimal(b) {
+				return errors.New("Invalid Value for Timestamp: " + string(bytes))
+			}
+		}
+	}
+
 	switch len(bytes) {
 	// Seconds.
 	case 17:
